@@ -24,7 +24,7 @@ STAGES = {
     "counts": {"counts", "turns", "loops"},
     "flow": {"tunnels", "threads"},
     "functions": {"functions"},
-    "more": {"choice_tags", "typed_vars", "if_diverts", "stitches", "cond_choices", "externals", "label_diverts", "params"},
+    "more": {"choice_tags", "typed_vars", "if_diverts", "stitches", "cond_choices", "externals", "label_diverts", "params", "divert_vars"},
 }
 DEFAULT = set().union(*STAGES.values())
 
@@ -58,6 +58,8 @@ def save_value(v):
         return {"t": "int", "v": v}
     if isinstance(v, str) and v.startswith("^"):
         return {"t": "str", "v": chars(v[1:])}
+    if isinstance(v, dict) and set(v) == {"^->"}:
+        return {"t": "div", "v": v["^->"]}
     return None
 
 
@@ -148,6 +150,8 @@ def value_json(v):
         return {"t": v["t"], "v": v["v"]}
     if v.get("t") == "str":
         return {"t": "str", "v": chars(v["v"])}
+    if v.get("t") == "target":
+        return {"t": "div", "v": v["v"]}
     return None
 
 
